@@ -1,7 +1,7 @@
 // kernels.go — a deliberately tiny Go→Lean translator for the decision kernels of rules/standard (P4), of
 // services/checker/static and services/process/standard (P7, second half of this file) and of util/scatter.go,
 // the gRPC receiver's senderID, OnCommit, getGeneration and peers.Suitable (P9), and of the import command's merge
-// loop in slashingprotection.go (P12, last part of this file).
+// loop in slashingprotection.go (P12, last part of this file).  The signer's batch signing loop (P15) is in signloop.go.
 //
 // It is a guard-chain extractor, not a Go compiler: the body of each kernel is read as a sequence of
 // guards (`if cond { …log…; return rules.X }`), local aliases, state-field updates and a final return,
@@ -175,6 +175,27 @@ var kernelSpecs = []kernelSpec{
 		file: "slashingprotection.go", fn: "storeSlashingProtection",
 		name: "importBlockStepGen", guards: "importBlockStepGuards", model: "Dirk.foldBlocks (one element)",
 		pkgLog: true, custom: transImportBlockStep,
+	},
+	// ---- P15 (signloop.go) ----
+	{
+		file: "services/signer/standard/signbeaconattestations.go", fn: "SignBeaconAttestations",
+		name: "signLoopPosAttGen", guards: "signLoopPosAttGuards", model: "Dirk.signEvs (one element)",
+		pkgLog: true, custom: transSignLoopPos,
+	},
+	{
+		file: "services/signer/standard/multisign.go", fn: "Multisign",
+		name: "signLoopPosMultiGen", guards: "signLoopPosMultiGuards", model: "Dirk.signGenerics (one element)",
+		pkgLog: true, custom: transSignLoopPos,
+	},
+	{
+		file: "services/signer/standard/signbeaconattestations.go", fn: "SignBeaconAttestations",
+		name: "signLoopBoundAttGen", guards: "signLoopBoundAttGuards", model: "Dirk.finishKeyedShort (the `take k`, `padUnknown`)",
+		pkgLog: true, custom: transSignLoopBound,
+	},
+	{
+		file: "services/signer/standard/multisign.go", fn: "Multisign",
+		name: "signLoopBoundMultiGen", guards: "signLoopBoundMultiGuards", model: "Dirk.multisignShort (the `take k`, `padUnknown`)",
+		pkgLog: true, custom: transSignLoopBound,
 	},
 }
 
@@ -1105,7 +1126,8 @@ func writeKernels(repo, dir string) {
 	var b strings.Builder
 	b.WriteString("/-\n  Dirk.Gen.Kernels — GENERATED — do not edit.  Regenerated on every run by /verif/factx (kernels.go) from the\n" +
 		"  Go source of the decision kernels (rules/standard, services/checker/static, services/process/standard,\n" +
-		"  util/scatter.go, services/api/grpc/handlers/receiver, services/peers/static, slashingprotection.go);\n" +
+		"  util/scatter.go, services/api/grpc/handlers/receiver, services/peers/static, slashingprotection.go,\n" +
+		"  services/signer/standard: the batch signing loop, with core/result.go and rules/service.go for the enumerator values);\n" +
 		"  Dirk/Props/KernelsEq.lean proves each definition\n" +
 		"  equal to the hand-written model function.  A kernel outside the translatable fragment appears as\n" +
 		"  `kernelUntranslatable_<name>` instead, and KernelsEq.lean does not build.\n-/\n" +
@@ -1114,6 +1136,11 @@ func writeKernels(repo, dir string) {
 		"    (fixed text, not translated from any source). -/\n" +
 		"def wrapI64 (x : Int) : Int := (x + 9223372036854775808) % 18446744073709551616 - 9223372036854775808\n\n")
 	for i := range kernelSpecs {
+		if kernelSpecs[i].name == "signLoopPosAttGen" {
+			// P15: the enumerator values the signing-loop kernels are written in
+			b.WriteString(resultEnums(repo))
+			b.WriteString("\n")
+		}
 		b.WriteString(translateKernel(repo, &kernelSpecs[i]))
 		b.WriteString("\n")
 	}
